@@ -118,6 +118,45 @@ theorem growth_length (nElem nBounds : Nat) (dG precDens : α)
       cases h
       simp [hk, hres g a b rfl]
 
+/-- a growth request is well shaped for the current grid: the kinetic factor and a returned growth
+field both live on the current class boundaries -/
+def GOp.shaped (n : Nat) : GOp α → Prop
+  | .grid _ => True
+  | .growth _ _ res kin _ _ => kin.length = n ∧ ∀ g a b, res = some (g, a, b) → g.length = n
+
+theorem gstep_inv (nElem : Nat) (s : GState α) (op : GOp α) (hs : s.growth.length = s.nBounds)
+    (hop : GOp.shaped s.nBounds op) :
+    ∃ s', gstep nElem s op = .ok s' ∧ s'.growth.length = s'.nBounds := by
+  cases op with
+  | grid n => exact ⟨_, rfl, by simp⟩
+  | growth dG dens res kin a b =>
+    obtain ⟨hk, hr⟩ := hop
+    obtain ⟨o, ho⟩ := growth_fallback_total nElem s.nBounds dG dens res kin s.growth a b
+    have hl := growth_length nElem s.nBounds dG dens res kin s.growth a b o hk hs hr ho
+    refine ⟨{ s with growth := o.growth }, ?_, hl⟩
+    simp [gstep, ho]
+
+/-- **growth field follows the grid, faults included**: over ANY sequence of grid changes
+(extension, re-mesh) and growth calculations with ANY backend answers — in particular a failure on
+the first request after a grid change — no step raises and the stored growth-rate field always has
+one entry per class boundary of the current grid.  (Seeded change C03-1 breaks exactly this:
+zeros of length `bins` instead of `bins+1` after a grid change.) -/
+theorem growth_field_follows_grid (nElem : Nat) (ops : List (GOp α)) (s : GState α)
+    (hs : s.growth.length = s.nBounds)
+    (hops : ∀ (pre : List (GOp α)) (op : GOp α) (post : List (GOp α)) (s' : GState α),
+        ops = pre ++ op :: post → grun nElem s pre = .ok s' → GOp.shaped s'.nBounds op) :
+    ∃ s', grun nElem s ops = .ok s' ∧ s'.growth.length = s'.nBounds := by
+  induction ops generalizing s with
+  | nil => exact ⟨s, rfl, hs⟩
+  | cons op rest ih =>
+    obtain ⟨s1, h1, hl1⟩ := gstep_inv nElem s op hs (hops [] op rest s rfl rfl)
+    have := ih s1 hl1 (by
+      intro pre op' post s' hsplit hrun
+      apply hops (op :: pre) op' post s' (by simp [hsplit])
+      simp [grun, h1, hrun])
+    obtain ⟨s2, h2, hl2⟩ := this
+    exact ⟨s2, by simp [grun, h1, h2], hl2⟩
+
 /-! ### recorded quantities stay in range, whatever the backend returned -/
 
 theorem moment_nonneg (k : Nat) (N R : List α) (hN : ∀ v ∈ N, 0 ≤ v) (hR : ∀ r ∈ R, 0 ≤ r) :
